@@ -277,7 +277,9 @@ PROPS["C17"] = {
                   "with exact comparison, and the overwrite loop is compared bitwise with a real unrolled network holding the same weights",
     "level_note": "iterations <= 2 (3); sparse identity-like integer weights (vacuity guard: the accumulations must be distinguishable); multiply only for one iteration; mean over 3 tensors compared within 1e-5, everything else exactly",
     "rule": "one case = one (network, range, iterations, input skips) evaluated under 5 accumulations; all distinct; non-trivial = all",
-    "mc": [flow_mc("loop", ["{1, 2, 3, 4, 5}", 1, 3, 1, "{1, 2}", "FALSE"], ["{1, 2, 3, 4, 5}", 1, 4, 1, "{1, 2, 3}", "FALSE"])],
+    "mc": [flow_mc("loop", ["{1, 2, 3, 4, 5}", 1, 3, 1, "{1, 2}", "FALSE"], ["{1, 2, 3, 4, 5}", 1, 4, 1, "{1, 2, 3}", "FALSE"]),
+           # two loop connections over disjoint ranges in one network, declared in either order
+           flow_mc("loop", ["{1}", 2, 2, 1, "{1}", "FALSE"], ["{1, 2, 4, 5}", 2, 2, 1, "{1, 2}", "FALSE"])],
     "assumptions": FLOW_ASSUME,
 }
 PROPS["C11"] = {
@@ -302,7 +304,7 @@ PROPS["C18"] = {
     "level_text": "Random.tla models the minstd step (Schrage) and the u64->f32 rounding, ratio, index and swap sequence in 32-bit integer arithmetic; "
                   "TLC checks on the low band, the high band, a coarse grid and the predecessors of all 63 successors with ratio 1 that the raw "
                   "formula leaves the range exactly there and that the contract index is in bounds and shuffles are permutations; every record "
-                  "(state, length) is replayed: value in [min,max] for 12 intervals, index = model, sequence = minstd, shuffle = model permutation, "
+                  "(state, length) is replayed: value in [min,max] for 16 intervals (incl. degenerate and sub-epsilon ones), index = model, sequence = minstd, shuffle = model permutation, "
                   "64-bit seeds above the modulus, Tensor::random shapes/bounds; a sweep over generator states (every 4099th in the quick tier, all "
                   "2^31-2 in the thorough tier) checks range and bounds",
     "level_note": "TLC enumerates bands, not all 2^31 states: the full-range statement rests on the harness sweep (plain enumeration against the "
@@ -398,8 +400,8 @@ PROPS["C10"] = {
                   "VALUE is not prescribed by the property and not compared",
     "rule": "one case = one (block, loops, accumulation, optimizer, batch) configuration; all distinct; non-trivial = all (every case trains)",
     "mc": [{"module": "MC_C10",
-            "consts": {"quick": {"MaxLoops": 3, "MaxSteps": 2, "Blocks": "{1, 2, 3, 4, 5, 6, 7}", "Optimizers": '{"sgd", "adam", "rmsprop"}', "Batches": "{1, 2}"},
-                       "thorough": {"MaxLoops": 4, "MaxSteps": 3, "Blocks": "{1, 2, 3, 4, 5, 6, 7}", "Optimizers": '{"sgd", "sgdm", "adam", "adamw", "rmsprop"}', "Batches": "{1, 2, 3}"}},
+            "consts": {"quick": {"MaxLoops": 3, "MaxSteps": 2, "Blocks": "{1, 2, 3, 4, 5, 6, 7}", "Optimizers": '{"sgd", "sgd-decay", "sgdm-decay", "adam", "rmsprop"}', "Batches": "{1, 2}"},
+                       "thorough": {"MaxLoops": 4, "MaxSteps": 3, "Blocks": "{1, 2, 3, 4, 5, 6, 7}", "Optimizers": '{"sgd", "sgd-decay", "sgdm", "sgdm-decay", "adam", "adam-decay", "adamw", "rmsprop", "rmsprop-decay"}', "Batches": "{1, 2, 3}"}},
             "workers": 8, "timeout": {"quick": 600, "thorough": 3600}}],
     "assumptions": COMMON_ASSUMPTIONS,
 }
